@@ -565,6 +565,25 @@ func isDigitRunSkipSafe(re *syntax.Regexp) bool {
 	}
 }
 
+// hasUnboundedRepeat reports whether re contains a *, + or {n,} repetition, not
+// counting (when skipLeading is set) the repetition the pattern starts with.
+// Without one, an anchored match attempt reads at most a pattern-bounded number of bytes.
+func hasUnboundedRepeat(re *syntax.Regexp, skipLeading bool) bool {
+	switch re.Op {
+	case syntax.OpStar, syntax.OpPlus, syntax.OpRepeat:
+		if re.Op != syntax.OpRepeat || re.Max == -1 {
+			return !skipLeading
+		}
+	}
+	for i, sub := range re.Sub {
+		leading := skipLeading && i == 0 && (re.Op == syntax.OpConcat || re.Op == syntax.OpCapture)
+		if hasUnboundedRepeat(sub, leading) {
+			return true
+		}
+	}
+	return false
+}
+
 // isSafeForReverseSuffix checks if a pattern is safe for UseReverseSuffix strategy.
 // Returns true only for patterns where reverse search is proven to work correctly.
 //
